@@ -38,7 +38,7 @@ Step ==
         /\ FALSE
      ELSE
         /\ CASE ev.op = "submit"  -> ESubmit(ev.t, ev.res)
-             [] ev.op = "mine"    -> (eres = "" /\ Mine(IF Range(ev.txs) = Packable /\ NoDupSeq(ev.txs) THEN ev.txs ELSE GoodOrder(Packable)) /\ UNCHANGED <<insH, insB, todo, eres>>)
+             [] ev.op = "mine"    -> (eres = "" /\ Mine(IF Range(ev.txs) \subseteq Packable /\ NoDupSeq(ev.txs) THEN ev.txs ELSE PrefixFits(GoodOrder(Packable))) /\ UNCHANGED <<insH, insB, todo, eres>>)
              [] ev.op = "tick"    -> Tick
              [] ev.op = "restart" -> ERestart
         /\ pend' = hist'[Len(hist')].res
